@@ -737,7 +737,7 @@ func RunBatch(s *Scenario, o BatchOpts) *Batch {
 		}
 
 		// determinism self-guard: re-execute a sample of our own seeds
-		if count%50 == 1 {
+		if count%50 == 1 && out.Viol == nil {
 			b.DetChecks++
 			again := RunOnce(s, o.Tier, seed, nil, nil, false, false)
 			if again.Hash != out.Hash {
@@ -823,7 +823,11 @@ func reportViolation(s *Scenario, o BatchOpts, idx int, seed uint64, out Outcome
 		Violation: final.Viol, EventHash: fmt.Sprintf("%016x", final.Hash), Trace: final.Trace, Sample: final.Sample,
 		Minimised: min, ShrinkExec: execs, OrigPlanLen: len(out.Plan), OrigSchedLen: len(out.Sched)}
 	if rf.Violation == nil {
+		// the re-execution did not fail again (e.g. the race detector reports a given race once per
+		// process): keep the identity of the run that did
 		rf.Violation = out.Viol
+		rf.EventHash = fmt.Sprintf("%016x", out.Hash)
+		rf.Minimised = false
 	}
 	path := fmt.Sprintf("%s/%s-%d.json", o.ReplayDir, s.ID, seed)
 	if err := WriteReplay(path, rf); err != nil {
